@@ -6,7 +6,10 @@ step of the baton harness `harness/h_chain.cpp`, which yields after every interp
 unmodified headers).  Agents:
 
 * resolvers: `promise::operator()(value | exception | drop)` — `claim` (xchg on `_owner`), `future::set`,
-  `resolve` (xchg on `_awaiter` := ready), walk over the detached chain;
+  `resolve` (xchg on `_awaiter` := ready), walk over the detached chain; the returned suspend point is either dropped
+  (ordinary code: the collected coroutines are resumed in order) or — `Cfg.aw t`, the resolver is itself a coroutine —
+  awaited in the same expression, `co_await promise(...)`: `suspend_point::await_suspend` transfers to the *last*
+  collected handle, queues the others in order and the awaiting coroutine behind them (`awaitOrder`);
 * the destructor agent: `~promise` (load `_owner`; resolve without payload), enabled once every resolver call
   returned (a destructor racing a member call is outside C++ object lifetime);
 * the destructor agent of a `promise_with_default` / `_v` / `_vp` (`Kind.ddef v`): `this->set_value(def)` — `claim`
@@ -118,6 +121,9 @@ structure State where
 structure Cfg where
   n : Nat
   kind : Nat → Kind
+  /-- agent `t` (a resolver call) is made from inside a coroutine that awaits the returned suspend point in the same
+  expression: `bool won = co_await promise(args...)` -/
+  aw : Nat → Bool := fun _ => false
 
 def upd {α} (f : Nat → α) (i : Nat) (v : α) : Nat → α := fun j => if j = i then v else f j
 
@@ -154,12 +160,24 @@ def enabled (c : Cfg) (s : State) (t : Nat) : Bool :=
 
 def setPc (s : State) (t : Nat) (p : Pc) : State := { s with pc := upd s.pc t p }
 
+/-- `suspend_point::await_suspend` in coroutine mode (`co_await promise(...)`): of the collected handles `h1 … hk` the last
+one is resumed by symmetric transfer, `h1 … h(k-1)` are queued in order and the awaiting coroutine behind them: the
+coroutines run in the order `hk, h1, …, h(k-1)`, and the awaiting resolver continues after all of them -/
+def awaitOrder (l : List Nat) : List Nat :=
+  match l.getLast? with
+  | none => []
+  | some x => x :: l.dropLast
+
+/-- the order in which the handles collected by the walk of agent `t` are resumed -/
+def resumeOrder (c : Cfg) (t : Nat) (l : List Nat) : List Nat := if c.aw t then awaitOrder l else l
+
 /-- `resume_chain_lk`: blocking waiters and callbacks are handled while walking (chain order), coroutine handles
-are collected into the returned suspend point and resumed afterwards (same order) -/
-def buildActs (c : Cfg) (l : List Nat) : List Act :=
+are collected into the returned suspend point and resumed afterwards (same order when the suspend point is dropped,
+`awaitOrder` when agent `t` awaits it) -/
+def buildActs (c : Cfg) (t : Nat) (l : List Nat) : List Act :=
   (l.filter (fun x => wkOf c x = WK.sync ∨ wkOf c x = WK.cb)).map
       (fun x => if wkOf c x = WK.sync then Act.store x else Act.wake x)
-  ++ (l.filter (fun x => ¬ (wkOf c x = WK.sync ∨ wkOf c x = WK.cb))).map Act.wake
+  ++ (resumeOrder c t (l.filter (fun x => ¬ (wkOf c x = WK.sync ∨ wkOf c x = WK.cb)))).map Act.wake
 
 /-- a reader of kind `k` needs the extra `pending()` load: `value()` with no value stored -/
 def needsLoad (s : State) (k : WK) : Bool := k != WK.hasv && s.payload == Outcome.none
@@ -255,7 +273,7 @@ def astep (c : Cfg) (s : State) (t : Nat) : State × List Ev :=
         | Kind.res k => k.payload
         | Kind.ddef v => Outcome.val v
         | _ => s.payload
-      ({ setPc s t (Pc.rRun dt (buildActs c (chainOf s.slot))) with payload := pay, slot := Slot.ready },
+      ({ setPc s t (Pc.rRun dt (buildActs c t (chainOf s.slot))) with payload := pay, slot := Slot.ready },
        [Ev.opXchgSlot t s.slot.seen])
   | Pc.rRun dt acts => stepRun c s t dt acts
   | Pc.dArrive =>
